@@ -372,6 +372,10 @@ def fpDeFlags (c : FpCfg) (Fl : Type) [Flags Fl] : M (Fp c.p × Fl) := do
   | none => throwE .flags
   | some (flags, b') =>
     let masked ← liftO (masked.set c.N (outputByteSize - 1) b')
+    -- (fix 6c824ba) the extra byte `last` is not read by `to_bigint`: apart from the flag bits it must be zero
+    -- `if output_byte_size > N * 8 && masked_bytes[output_byte_size - 1] != 0 { return Err(InvalidData) }`
+    let rest ← liftO (masked.get c.N (outputByteSize - 1))
+    if outputByteSize > c.N * 8 && rest != 0 then throwE .invalid
     let selfInteger := masked.toBigint
     match fromBigint c selfInteger with
     | some v => pure (v, flags)
